@@ -119,8 +119,8 @@ type Monitor interface {
 type BaseMonitor struct{}
 
 func (BaseMonitor) OnTap(*History, string, string, *cmt.Context, any) {}
-func (BaseMonitor) OnBlock(*History, *Block, []*GenTx, *BlockResult) {}
-func (BaseMonitor) OnEnd(*History)                                   {}
+func (BaseMonitor) OnBlock(*History, *Block, []*GenTx, *BlockResult)  {}
+func (BaseMonitor) OnEnd(*History)                                    {}
 
 // HistoryConfig configures a history run.
 type HistoryConfig struct {
@@ -157,13 +157,13 @@ type History struct {
 	Gen   *TxGen
 	View  *View
 
-	Height   int64
-	Time     time.Time
-	ValSets  map[int64]ValSet // validator set in force at each height
-	Blocks   []*Block
-	Results  []*BlockResult
+	Height  int64
+	Time    time.Time
+	ValSets map[int64]ValSet // validator set in force at each height
+	Blocks  []*Block
+	Results []*BlockResult
 	// Cur is the block being executed (valid inside taps).
-	Cur *Block
+	Cur      *Block
 	PathUsed map[Path]int
 
 	// Outcome
@@ -172,9 +172,9 @@ type History struct {
 	PreconditionLost  string // non-empty: the documented election precondition was lost
 	RejectedProposals int
 	// OwnAbandoned counts round changes in which a test replica built its own (undecided) proposal.
-	OwnAbandoned int
-	EpochTransitions  int
-	lastEpoch         uint64
+	OwnAbandoned     int
+	EpochTransitions int
+	lastEpoch        uint64
 }
 
 // tapOwner maps application states to histories (taps are process-global).
